@@ -27,13 +27,13 @@ import shutil
 from common import *
 
 COQ_FILES = ['C15/Model.v', 'C15/Spec.v', 'C15/ProofsLoss.v', 'C15/ProofsLossFault.v', 'C15/ProofsCsvCrash.v',
-             'C15/ProofsCsvFault.v', 'C15/ProofsLayout.v', 'C15/Proofs.v', 'C15/Props.v']
+             'C15/ProofsCsvFault.v', 'C15/ProofsLayout.v', 'C15/XMove.v', 'C15/Proofs.v', 'C15/Props.v']
 # real dependencies (the five case-analysis files are independent of each other and are built in parallel by make)
 COQ_DEPS = {'C15/Model.v': [], 'C15/Spec.v': ['C15/Model.v'],
             'C15/ProofsLoss.v': ['C15/Spec.v'], 'C15/ProofsLossFault.v': ['C15/Spec.v'], 'C15/ProofsCsvCrash.v': ['C15/Spec.v'],
-            'C15/ProofsCsvFault.v': ['C15/Spec.v'], 'C15/ProofsLayout.v': ['C15/Spec.v'],
+            'C15/ProofsCsvFault.v': ['C15/Spec.v'], 'C15/ProofsLayout.v': ['C15/Spec.v'], 'C15/XMove.v': ['C15/Spec.v'],
             'C15/Proofs.v': ['C15/ProofsLoss.v', 'C15/ProofsLossFault.v', 'C15/ProofsCsvCrash.v', 'C15/ProofsCsvFault.v',
-                             'C15/ProofsLayout.v']}
+                             'C15/ProofsLayout.v', 'C15/XMove.v']}
 
 
 def order_vo_times():
@@ -117,13 +117,14 @@ class Tok:
     """Per-shape token table: every chunk of real text is one letter."""
     POOL = 'abcdefghijklmnopqrstuvwxyzABCDEFGHIJKLMNOPQRSTUVWXYZ023456789'
 
-    def __init__(self, tier):
-        self.map, self.lab, self.tier = {}, {}, tier
+    def __init__(self, tier, halves=False):
+        self.map, self.lab, self.tier, self.halves = {}, {}, tier, halves
 
     def add(self, label, text):
         if label in self.lab:
             return self.lab[label]
-        cuts = [0] + cuts_for(label.split('#')[0], text, self.tier) + [len(text)]
+        mid = [len(text) // 2] if self.halves and label in ('s', 'r', 'd') and len(text) > 1 else []
+        cuts = [0] + (mid or cuts_for(label.split('#')[0], text, self.tier)) + [len(text)]
         out = ''
         for a, b in zip(cuts, cuts[1:]):
             if b > a:
@@ -175,11 +176,11 @@ def layout_shapes():
                             'id': f"layout-data{int(data)}-out{int(output)}-t{t}-tc{tc}-td{td}"})
     # ./tally on another file system: rename gives EXDEV, shutil.move copies the tree file by file and then removes
     # the source - the move is many steps, each a crash / fault point (both ./config and a partial ./tally/config
-    # exist meanwhile).  Outside the Coq model (its Move is one step): judged by the direct oracle.
+    # exist meanwhile).  Modelled by C15/XMove.v (xupdate_ops / xcrash / xupdate_rerun).
     for data in (True, False):
         for t in (0, 1):
             out.append({'kind': 'layout', 'cmd': 'update', 'data': data, 'output': False, 'tally': bool(t),
-                        'tally_config': False, 'tally_data': False, 'exdev': True, 'modelled': False,
+                        'tally_config': False, 'tally_data': False, 'exdev': True,
                         'id': f"layoutx-data{int(data)}-t{t}"})
     return out
 
@@ -190,7 +191,7 @@ def starter_texts(orc):
 
 def build_shape(sh, tier, orc):
     """-> dict(tree, tok, coq (term of the initial fs), c0tok, texts of interest)"""
-    tok = Tok(tier)
+    tok = Tok(tier, halves=bool(sh.get('exdev')))      # files copied by a cross-device move are cut at half
     tree = {}
     info = {'shape': sh, 'tok': tok}
     st = orc['starters']
@@ -276,7 +277,7 @@ def rules_candidates(info):
     out = [cv[:i] for i in range(len(cv) + 1)] + [tok.lab['F']]
     for lab in ('r', 'R'):
         if lab in tok.lab:
-            out.append(tok.lab[lab])
+            out += [tok.lab[lab][:i] for i in range(1, len(tok.lab[lab]) + 1)]     # (a half-copied rules file too)
     return out
 
 
@@ -327,7 +328,7 @@ def oracle_coq(info, facts, newrules):
 
 
 HEADER = r'''From Coq Require Import String List Bool Arith Ascii.
-From Tally Require Import C15.Model.
+From Tally Require Import C15.Model C15.XMove.
 Import ListNotations.
 Open Scope string_scope.
 Open Scope list_scope.
@@ -402,6 +403,29 @@ Definition csv_report (O : oracle) (c : cmd) (f0 : fs) (c0 : string) : list stri
                (match c with Up => show_inforce (up_inrun_after_fault (crash ops k j n f0) cd) | Init => "-" end)]
      else [])) (scen ops).
 
+Definition show_xeff (e : xeff) : string :=
+  match e with
+  | XB b => show_eff b
+  | XBegin a b => sapp "Mx " (sapp (show_path a) (sapp " " (show_path b)))
+  | XCopy a b => sapp "CP " (sapp (show_path a) (sapp " " (show_path b)))
+  | XUnlink p => sapp "X:os.unlink " (show_path p)
+  | XRmdir p => sapp "X:os.rmdir " (show_path p)
+  | XFail => "FAIL"
+  end.
+Definition xproj (e : xeff) : eff := match e with XB b => b | _ => Mkdir [] end.
+Definition xscen (f0 : fs) (ops : list xeff) : list (nat * (nat * nat)) :=
+  flat_map (fun k =>
+    match nth_error ops k with
+    | Some (XCopy s _) =>
+      map (fun n => (k, (0, n))) (seq 0 (S (String.length (match content_at f0 s with Some c => c | None => "" end))))
+    | _ =>
+      let ps := pend_at (map xproj ops) [] false k in
+      match ps with
+      | [] => [(k, (0, 0))]
+      | _ => flat_map (fun j => map (fun n => (k, (j, n))) (seq 0 (S (String.length (nth j ps ""))))) (seq 0 (length ps))
+             ++ [(k, (length ps, 0))]
+      end
+    end) (seq 0 (S (length ops))).
 Definition show_lres (r : inforce * option string) : string := sapp (show_inforce (fst r)) (sapp "~" (show_ostr (snd r))).
 Definition layout_report (O : oracle) (f0 : fs) (r0 : string) : list string :=
   let ops := update_ops O f0 in
@@ -420,6 +444,26 @@ Definition layout_report (O : oracle) (f0 : fs) (r0 : string) : list string :=
   flat_map (fun kn => let '(k, (j, n)) := kn in
     row "crash" k j n (crash ops k j n f0) ::
     (if Nat.ltb k (length ops) then [row "fault" k j n (crash ops k j n f0)] else [])) (scen ops).
+'''
+
+HEADER += r'''
+Definition xlayout_report (O : oracle) (f0 : fs) (r0 : string) : list string :=
+  let ops := xupdate_ops O f0 in
+  let row kind k j n f1 :=
+    let f2 := xupdate_rerun O f1 in
+    line [kind; show_nat k; show_nat j; show_nat n; show_fs f1; show_lres (resolve_layout O f1); show_fs f2;
+          show_lres (resolve_layout O f2); "-";
+          show_bool (no_loss f0 f1); show_bool (lres_eqb (resolve_layout O f1) (resolve_layout O f0));
+          show_bool (lres_eqb (resolve_layout O f2) (resolve_layout O f0));
+          show_bool (layout_stranded O r0 (fst (resolve_layout O f1)) f1);
+          show_bool (layout_stranded O r0 (fst (resolve_layout O f2)) f2);
+          show_bool (no_loss f0 f2)] in
+  line ["ops"; join ";" (map show_xeff ops)] ::
+  line ["init"; show_fs f0; show_lres (resolve_layout O f0)] ::
+  row "full" 0 0 0 (xupdate_rerun O f0) ::
+  flat_map (fun kn => let '(k, (j, n)) := kn in
+    row "crash" k j n (xcrash ops k j n f0) ::
+    (if Nat.ltb k (length ops) then [row "fault" k j n (xinterrupt true ops k j n f0)] else [])) (xscen f0 ops).
 '''
 
 
@@ -494,6 +538,8 @@ def run_model(infos, facts, newrules, nproc=4):
         body = [f'Definition O_{i} : oracle :=\n  {oracle_coq(info, facts, newrules)}.']
         if info['shape']['kind'] == 'csv':
             call = f'csv_report O_{i} {info["cmd_coq"]} {info["f0"]} "{info["tok"].lab["c"]}"'
+        elif info['shape'].get('exdev'):
+            call = f'xlayout_report O_{i} {info["f0"]} "{info["tok"].lab["r"]}"'
         else:
             call = f'layout_report O_{i} {info["f0"]} "{info["tok"].lab["r"]}"'
         body.append(f'Eval vm_compute in ("shape|{sid}" :: {call}).')
@@ -702,7 +748,7 @@ def writes_in_flight(trace):
     return out
 
 
-def model_key(sc, trace, start, offs):
+def model_key(sc, trace, start, offs, tree=None):
     """The model row (mode, k, j, n) of a real scenario: the shim's `n` counts how much of everything buffered
     so far had reached the disk; the model says: the first j buffered pieces entirely and n chunks of piece j."""
     if sc['mode'] == 'trace':
@@ -711,6 +757,11 @@ def model_key(sc, trace, start, offs):
     if k >= len(trace):
         return (sc['mode'], k - start, 0, 0)
     e = trace[k]
+    if e[0] == 'CP':                     # a copy cut after n bytes of its source
+        o = offs.get((tree or {}).get(e[1]))
+        if o is None or n not in o:
+            return None
+        return (sc['mode'], k - start, 0, o.index(n))
     ws = writes_in_flight(trace)[k]
     if e[0] == 'W':
         ws = ws + [(k, e[2])]
@@ -753,7 +804,7 @@ def compare(info, res, model):
         offs[tok.interp(tok.lab[lab])] = tok.offsets(lab)
     seen = set()
     for sc in scs:
-        key = model_key(sc, tr['trace'], start, offs)
+        key = model_key(sc, tr['trace'], start, offs, info['tree'])
         if key is None:
             mism.append({'what': 'cut offset not on a chunk boundary', 'scenario': sc_id(sc)})
             continue
@@ -807,7 +858,7 @@ def verdict_bits(info, res, model, bad):
     for i, clause, detail, sig in bad:
         badset.setdefault(i, set()).add('lost' if clause == 'lost' else 'rules')
     for i, sc in enumerate(res['scenarios']):
-        key = model_key(sc, tr['trace'], start, offs)
+        key = model_key(sc, tr['trace'], start, offs, info['tree'])
         if key is None:
             continue
         row = model['rows'].get(key)
@@ -949,10 +1000,12 @@ def main(tier):
         'interruption points are the write effects of the migration functions themselves (not of the rest of `tally init`): a '
         'crash and a single OSError at every step incl. each close/flush and every step that runs while a file is still open, '
         'with the buffer flushed up to chunk boundaries (quick: 3-5 cuts per text; thorough: every 3rd byte of the settings line)',
-        'shutil.move is one atomic step in the Coq model (same file system); its copy+delete fallback across devices '
-        '(rename -> EXDEV) and budgets whose settings.yaml names a *.csv merchants_file explicitly are run under the shim '
-        'and judged by the direct oracle only (shapes layoutx-*, csvkey-*: every mkdir / per-file copy / rmtree step is an '
-        'interruption point), not compared with the model']
+        'shutil.move on one file system is one atomic step (Model.Move); across file systems (rename -> EXDEV) it is the effect '
+        'list of C15/XMove.v (mkdir, one copy per file, one unlink per file, rmdir; copytree goes on after a failed copy), '
+        'tied on shapes layoutx-* by trace and by every interrupted state; directories moved that way are flat and are '
+        'copied in directory order as observed',
+        'budgets whose settings.yaml names a *.csv merchants_file explicitly (shapes csvkey-*) are outside the Coq model '
+        '(load_config format tag / get_all_rules extension test not modelled): direct oracle + empty-trace expectation only']
     with CoqLock():
         order_vo_times()
     res = run.proof_step(COQ_FILES, extra_trusted=[
